@@ -259,13 +259,35 @@ def expectations(cfg):
     if nops >= 4 and len(set(counts)) < 2:
         viol.append(("operator-count-constant", f"operator count does not vary with the draw: always {counts[0]}", dict(cfg=cfg)))
     # (2) gap
+    def normal_draws(wait_ticks):
+        """(loc, scale) of every normal draw over the first ticks, all answers default"""
+        pr = params(num_pipelines=1, num_operators=1, ticks_per_second=tps, waiting_seconds_mean=wait_ticks / tps, interactive_prob=0, query_prob=1, batch_prob=0)
+        g = WorkloadGenerator(**pr)
+        seen = []
+        g.rng = OneDrawRng(lambda loc, scale, k: seen.append((float(loc), float(scale))) and False, 0.0)
+        for _ in range(3):
+            g.run_one_tick()
+        return seen
     for wait_ticks in cfg["waits"]:
         gaps = []
+        # the gap draw is identified by what it REACTS to, not by what it is expected to look like: the normal draw
+        # whose centre moves when waiting_seconds_mean moves (everything else equal)
+        da, db = normal_draws(wait_ticks), normal_draws(3 * wait_ticks + 7)
+        moving = [i for i, (x, y) in enumerate(zip(da, db)) if x != y]
+        if len(da) != len(db) or len(moving) != 1:
+            gapidx, wmean = None, None
+        else:
+            gapidx = moving[0]
+            wmean = da[gapidx][0]
+            if abs(wmean - wait_ticks) > 1 + 0.01 * wait_ticks:    # (one tick of float truncation and 1% are not "a different average")
+                viol.append(("gap-draw-centre", f"waiting_seconds_mean={wait_ticks / tps}s at {tps} ticks/s is {wait_ticks} ticks, but the gap is drawn around {wmean}", dict(cfg=cfg, wait=wait_ticks)))
         for z in qs:
+            if gapidx is None:
+                gaps = None
+                break
             pr = params(num_pipelines=1, num_operators=1, ticks_per_second=tps, waiting_seconds_mean=wait_ticks / tps, interactive_prob=0, query_prob=1, batch_prob=0)
             g = WorkloadGenerator(**pr)
-            wmean = int(wait_ticks)
-            g.rng = OneDrawRng(lambda loc, scale, k: abs(loc - wmean) < 1e-9 and scale > 0, z)
+            g.rng = OneDrawRng(lambda loc, scale, k, gi=gapidx: k == gi, z)
             t, ev = 0, []
             while len(ev) < 2 and t < 10 * wait_ticks + 10:
                 if g.run_one_tick():
@@ -406,7 +428,7 @@ def main(tier, seed):
             rep.add_violations([Violation("binding", kind, d, what, what.get("choices", []), family="C15s")])
     rep.part("binding", triples=len(tcfgs))
     # (iii) expectations
-    ecfgs = [dict(nops=n, tps=tps, waits=[100, 400, 5000] if n == 5 else [100], ratios=[0, 0.1, 0.2, 0.3, 0.4, 0.5, 0.6, 0.7, 0.8, 0.9, 1.0] if n == 5 else [0, 0.5, 1.0])
+    ecfgs = [dict(nops=n, tps=tps, waits=[100, 400, 5000, 25, 17, 125, 1750] if n == 5 else [100, 25], ratios=[0, 0.1, 0.2, 0.3, 0.4, 0.5, 0.6, 0.7, 0.8, 0.9, 1.0] if n == 5 else [0, 0.5, 1.0])
              for n in (1, 2, 5, 8, 20) for tps in ((10,) if q else (1, 10, 1000))]
     res3 = pmap(expectations, ecfgs, chunks=1)
     for r in res3:
